@@ -53,6 +53,13 @@ def candidates():
                 d = os.path.join(inc2, prop, v)
                 if os.path.exists(os.path.join(d, "patch.diff")):
                     out.append((f"{prop}-{'C' if v == 'A' else 'D'}", prop, d))
+    inc3 = os.path.join(VERIF, "seeded", "_incoming3")
+    if os.path.isdir(inc3):
+        for prop in sorted(os.listdir(inc3)):
+            for v in sorted(os.listdir(os.path.join(inc3, prop))):
+                d = os.path.join(inc3, prop, v)
+                if os.path.exists(os.path.join(d, "patch.diff")):
+                    out.append((f"{prop}-{'E' if v == 'A' else 'F'}", prop, d))
     for h, prop in HIST.items():
         d = os.path.join(VERIF, "seeded", h)
         if os.path.exists(os.path.join(d, "patch.diff")):
